@@ -1054,7 +1054,10 @@ class _Gen:
             p, kind_p, _ = params[j]
             params[j] = (p, kind_p, True)
             # defaults are evaluated inside the call: like the body they never call self.b() / super()
-            defaults[p] = self.lo_s(lex.child(blocks=[], super_ok=False), 1)
+            # ... and, like the body, read data only (not the template's set variables)
+            dlex = lex.child(blocks=[], super_ok=False)
+            dlex.lo, dlex.hi, dlex.rowvars, dlex.loop = list(LO_DATA), [], [], False
+            defaults[p] = self.lo_s(dlex, 1)
         caller = self.weighted([(None, 3), (0, 2), (1, 2)])
         # a macro body never calls self.b() / super(): blocks call macros, so that could recurse
         c = lex.child(toplevel=False, emit_hi=result_hi, macro_kind=kind, caller=caller, loop=False, blocks=[], super_ok=False)
